@@ -170,6 +170,33 @@ fn run_dealer(cx: &mut CaseCx, case: &Value) {
   for s in &it[t as usize..] {
     check_share(cx, s, "iterator");
   }
+  // the dealer is an Iterator: adapters used on an already advanced dealer keep dealing NEW points of the same polynomials
+  let mut seen_x: Vec<BigUint> = it.iter().map(|s| fp_to_big(&s.x)).collect();
+  let mut adapters: Vec<(&str, Vec<Share>)> = vec![];
+  if let Ok(v) = guard(|| ev.nth(2).into_iter().collect::<Vec<Share>>()) {
+    adapters.push(("nth(2)", v));
+  }
+  if let Ok(v) = guard(|| ev.by_ref().skip(1).take(2).collect::<Vec<Share>>()) {
+    adapters.push(("skip(1).take(2)", v));
+  }
+  if let Ok(v) = guard(|| ev.by_ref().step_by(2).take(2).collect::<Vec<Share>>()) {
+    adapters.push(("step_by(2).take(2)", v));
+  }
+  if let Ok(v) = guard(|| ev.by_ref().take(1).collect::<Vec<Share>>()) {
+    adapters.push(("take(1)", v));
+  }
+  for (name, v) in adapters {
+    for s in &v {
+      check_share(cx, s, "iterator");
+      let x = fp_to_big(&s.x);
+      cx.eval();
+      if seen_x.contains(&x) || x.is_zero() {
+        cx.viol("C06/iterator-repeats-x", format!("after {} the dealer (already advanced) dealt the point x = {} again", name, x), json!({"t": t, "k": k, "adapter": name, "x": x.to_string()}));
+      }
+      seen_x.push(x);
+    }
+    cx.count("adapter_shares", v.len() as u64);
+  }
   // random points: scripted x values incl. zero candidates, boundary values and fresh ones
   let mut pts: Vec<Vec<u8>> = vec![vec![0u8; 24], vec![0u8; 48]];
   for x in ["1", "2", "18446744073709551616", "340282366920938463463374607431768211456", "340282366920938463463374607431768211457", "340282366920938463463374607431768223906", "12450"] {
@@ -359,6 +386,15 @@ fn run_recover(cx: &mut CaseCx, case: &Value) {
     let shares: Vec<Share> = sel.iter().map(|&i| pool[i].clone()).collect();
     let d = super::c01::distinct_x(&xs, sel);
     let res = guard(|| Sharks(t).recover(&shares).map_err(|e| e.to_string()));
+    // the same selection handed over as a lazily adapted iterator (no exact size known in advance)
+    if sel.len() <= t as usize + 1 {
+      let lazy = guard(|| Sharks(t).recover(shares.iter().filter(|s| !s.y.is_empty() || s.y.is_empty())).map_err(|e| e.to_string()));
+      let lazy2 = guard(|| Sharks(t).recover(shares.iter().flat_map(|s| std::iter::once(s))).map_err(|e| e.to_string()));
+      cx.eval();
+      if lazy.as_ref().map(|r| r.is_ok()) != res.as_ref().map(|r| r.is_ok()) || lazy2.as_ref().map(|r| r.as_ref().ok()) != res.as_ref().map(|r| r.as_ref().ok()) {
+        cx.viol("C06/recover-depends-on-iterator-shape", format!("recover gives {:?} for a Vec of shares but {:?} / {:?} for the same shares behind filter / flat_map adapters", res.as_ref().map(|r| r.is_ok()), lazy.as_ref().map(|r| r.is_ok()), lazy2.as_ref().map(|r| r.is_ok())), json!({"sel": sel, "t": t}));
+      }
+    }
     cx.eval();
     cx.count("states", 1);
     cx.count("transitions", 1);
